@@ -105,6 +105,9 @@ def replay_mix(pg):
             body.append(msg(S, "open_run"))
         elif kind == "checkpoint":
             body.append(msg(S, "checkpoint"))
+            if rng.random() < 0.3:
+                # the plan's own 'wait_for' (also what the suspension helper uses): replayable like any other message
+                body += [msg(S, "null"), msg(S, "wait_for", None, [{"sleepfn": rng.choice([0.0, 0.1])}]), msg(S, "null")]
         elif kind == "set" and pg.motors:
             g = pg.group()
             body += [msg(S, "set", pg.motors[0], rng.choice([1.0, 2.0, -1.0]), group=g), msg(S, "wait", None, group=g)]
